@@ -39,6 +39,14 @@ def gen_case(rng, ctx):
     n = rng.randint(1, 8)
     m = rng.randint(1, 5)
     steps = rng.choice(STEPS)
+    if rng.random() < 0.04:
+        # sizes around the limits of narrow integer types, short walks (the bucket ids still span the whole range)
+        n = rng.choice([127, 128, 129, 255, 256, 257])
+        m = rng.randint(1, 3)
+        steps = rng.choice([0, 0, 1, 2, 5, 10])
+        which = rng.choice(["markov", "markov_dataset", "uniform"])
+        return {"which": which, "n": n, "m": m, "steps": steps, "complete": rng.random() < 0.5,
+                "stream_seed": rng.randrange(10 ** 9), "size_class": "narrow-int-limits"}
     if steps == 1000 and rng.random() < 0.7:
         steps = rng.choice([20, 30, 100])
     return {"which": which, "n": n, "m": m, "steps": steps, "complete": rng.random() < 0.5,
@@ -98,7 +106,7 @@ def check_case(case, ctx):
     sc = ctx.scripted
     ctx.count("calls")
     ctx.count("which:" + which)
-    ctx.count(f"cell:n{n}")
+    ctx.count(f"cell:n{n}" if n <= 8 else "cell:narrow-int-limits")
     ctx.count(f"steps:{steps}")
     if which in ("uniform", "uniform_dataset"):
         sc.restart(script=[], tail="random", seed=case["stream_seed"])
@@ -201,6 +209,8 @@ def reach(counters, tier, info):
                             ("generator calls", "calls", 2000 * k)]:
         v = counters.get(key, 0)
         out.append({"name": name, "observed": v, "required": need, "ok": v >= need})
+    v = counters.get("cell:narrow-int-limits", 0)
+    out.append({"name": "calls with n around 128 / 256", "observed": v, "required": 40 * k, "ok": v >= 40 * k})
     for n in range(1, 9):
         v = counters.get(f"cell:n{n}", 0)
         out.append({"name": f"calls with n={n}", "observed": v, "required": 100 * k, "ok": v >= 100 * k})
